@@ -20,6 +20,7 @@ import (
 	"sort"
 	"strings"
 
+	metav1 "k8s.io/apimachinery/pkg/apis/meta/v1"
 	"sigs.k8s.io/controller-runtime/pkg/client"
 	"sigs.k8s.io/controller-runtime/pkg/event"
 	gatewayv1 "sigs.k8s.io/gateway-api/apis/v1"
@@ -179,6 +180,48 @@ func applyAndSummarise(reqs []frameworkStatus.UpdateRequest, objs []client.Objec
 			kept = append(kept, jKept{TargetStr(k), before, after, written[k],
 				hashOf(statusOf(byKey[k], false)), hashOf(statusOf(res[k], false))})
 		}
+	}
+	// live drift: other controllers added ancestor entries to an NGF policy AFTER our graph was built (status writes do
+	// not bump the generation, so the controller never sees them): the setter runs on the live object and must carry
+	// every one of them over, however many there are (15 or 16 foreign entries next to ours).
+	drift := 0
+	for _, rq := range reqs {
+		k := p.Key{Kind: p.KindOf(rq.ResourceType), NN: rq.NsName}
+		o, ok := byKey[k]
+		if !ok || drift >= 4 {
+			continue
+		}
+		pol, isPol := o.(policies.Policy)
+		if !isPol {
+			continue
+		}
+		drift++
+		live := o.DeepCopyObject().(client.Object)
+		st := pol.GetPolicyStatus()
+		anc := append([]v1alpha2.PolicyAncestorStatus(nil), st.Ancestors...)
+		nForeign := 0
+		for _, a := range anc {
+			if string(a.ControllerName) != ours {
+				nForeign++
+			}
+		}
+		want := 15 + drift%2
+		for i := 0; nForeign < want; i++ {
+			anc = append(anc, v1alpha2.PolicyAncestorStatus{
+				AncestorRef: gatewayv1.ParentReference{
+					Group: ptr(gatewayv1.Group(gatewayv1.GroupName)), Kind: ptr(gatewayv1.Kind("Gateway")),
+					Namespace: ptr(gatewayv1.Namespace(o.GetNamespace())), Name: gatewayv1.ObjectName(fmt.Sprintf("drift-gw%d", i)),
+				},
+				ControllerName: gatewayv1.GatewayController(foreignControllers[i%len(foreignControllers)]),
+				Conditions:     []metav1.Condition{cond("Accepted", "True", "Accepted")},
+			})
+			nForeign++
+		}
+		live.(policies.Policy).SetPolicyStatus(v1alpha2.PolicyStatus{Ancestors: anc})
+		before := foreignEntries(live, ours)
+		hb := hashOf(statusOf(live, false))
+		wrote := rq.Setter(live)
+		kept = append(kept, jKept{TargetStr(k) + "#live-drift", before, foreignEntries(live, ours), wrote, hb, hashOf(statusOf(live, false))})
 	}
 	return statuses, kept
 }
